@@ -4,7 +4,7 @@ Route H throughout (heap-touching region code; dfcc does not terminate on it, DE
 one function x one instantiation (32/16 bit) x one rect count: a symbolic rect count makes every box
 pointer symbolic and costs 20-50x (measured), so n is a compile-time constant per job.
 """
-from vdriver import Job
+from vdriver import Job, ext_jobs, ext_meta
 
 REC = ["--unwindset", "find_box_for_y:2"]   # recursion depth for <= 4 boxes (4 -> 2 -> 1); unwinding assertion is checked
 LEAK = ["--memory-leak-check"]
@@ -13,6 +13,12 @@ NONEMPTY_Q = ["contains_rectangle: the query rectangle is non-empty (x1<x2, y1<y
 A16 = ["translate (16-bit): |dx|,|dy| <= 2^30 (overflow_int_t is int there: extents + dx must not overflow int; "
        "the full int domain is job translate16.anydelta.n01)"]
 NOFAIL = ["init_from_image: no allocation failure injected (in_failmask == 0); failure paths belong to C15"]
+
+
+# extension modules merged into this property's job list (vdriver.ext_jobs / ext_meta)
+EXT = [
+    ("C07_msc", None),
+]
 
 
 def jobs(tier):
@@ -121,7 +127,7 @@ def jobs(tier):
                               functions=[fn + "init_from_image", "bitmap_addrect", "pixman_rect_alloc"], unwind=8,
                               timeout=900 if w == 2 else 2400, min_props=6, assumptions=NOFAIL,
                               domain="width %d, height 1, every bit pattern; any point in int x int: in region <=> bit set" % w))
-    return js
+    return js + ext_jobs(tier, EXT)
 
 
 META = {
@@ -142,3 +148,4 @@ META = {
         "init_from_image 16-bit instantiation beyond width 2",
     ],
 }
+META = ext_meta(META, EXT)
